@@ -23,7 +23,7 @@ ASSUMPTIONS = ["a party's projection of the history = its own ops in order; othe
                "noise are 'unrelated activity'",
                "Boolector is deterministic for a given formula sequence (self-test)"]
 REQUIRED_NONZERO = {"*": ["variants", "noise_ops", "snap_checks", "default_state_checks",
-                          "shared_state_checks"]}
+                          "shared_state_checks", "strict_noise_ops"]}
 
 
 def budget(tier):
@@ -40,6 +40,16 @@ def generate(seed, tier):
     n_ops = st.ops.randint(6, 24 if tier == "quick" else 48)
     ops = scen.history_ops(st, prog, g, n_parties, n_ops,
                            mix={"randomize": 55, "rw": 25, "assign": 12, "frand": 8}, cname=top)
+    # sometimes one party has no explicit random state: its sequence must then be a function of
+    # the global random seed and its own calls only (explicitly seeded activity of the other
+    # parties must not draw from the global random module)
+    unseeded = None
+    if n_parties >= 2 and st.ops.random() < 0.45:
+        unseeded = st.ops.randrange(n_parties)
+        ops = [o for o in ops if not (o["op"] == "seed" and o.get("p") == unseeded)]
+        for o in ops:
+            if o["op"] == "frand" and o["targets"][0][0] == unseeded:
+                o["k"] = None
     # a second, unrelated class for the noise party
     st2 = Streams(kernel.H(seed, "noiseprog"))
     nprog, _, _ = scen.flat_program(st2, True)
@@ -59,6 +69,7 @@ def generate(seed, tier):
         })
     return {"prop": ID, "seed": seed, "prog": prog, "noise_prog": nprog, "ops": ops,
             "variants": variants, "gseed": st.lib.randint(0, 1 << 30), "top": top, "kind": kind,
+            "unseeded": unseeded,
             "sub": st.ops.choice(["snap", "shared", "mutate", "default"]),
             "sub_seed": st.lib.randint(0, 1 << 30)}
 
@@ -164,7 +175,7 @@ def run_variant(rec, vi, stats):
         _r.seed(rec["gseed"])
         for (p, i) in order:
             if nrng is not None and nrng.random() < 0.5:
-                _noise(w, nrng, noise_parties, stats)
+                _noise(w, nrng, noise_parties, stats, strict=rec.get("unseeded") is not None)
             op = dict(hist[p][i])
             if op["op"] == "new":
                 out = w.apply(op)
@@ -210,13 +221,22 @@ def _rename_enums(nprog):
     return c
 
 
-def _noise(w, nrng, noise_parties, stats):
+def _noise(w, nrng, noise_parties, stats, strict=False):
     stats["noise_ops"] = stats.get("noise_ops", 0) + 1
-    k = nrng.choice(["new", "rand", "rand", "grand", "gc", "junk", "clock", "gseed"])
-    if k == "new" or (k == "rand" and not noise_parties):
+    kinds = ["new", "rand", "rand", "grand", "gc", "junk", "clock", "gseed"]
+    if strict:
+        # a party without explicit state exists: only noise that must not touch global random
+        kinds = ["new", "rand", "rand", "gc", "junk", "clock", "frand"]
+        stats["strict_noise_ops"] = stats.get("strict_noise_ops", 0) + 1
+    k = nrng.choice(kinds)
+    if k == "new" or (k in ("rand", "frand") and not noise_parties):
         out = w.apply({"op": "new", "cls": "N0"})
         if out["st"] == "ok":
             noise_parties.append(out["p"])
+            if strict:
+                w.apply({"op": "seed", "p": out["p"], "k": nrng.randint(0, 1 << 30)})
+    elif k == "frand":
+        w.apply({"op": "frand", "targets": [[nrng.choice(noise_parties), []]], "k": nrng.randint(0, 1 << 30)})
     elif k == "rand":
         w.apply({"op": "randomize", "p": nrng.choice(noise_parties)})
     elif k == "grand":
